@@ -27,7 +27,7 @@ REGIONS = [
     ("pyrefact/core.py", 588, 759, ["C16", "C15", "C02"]),
     ("pyrefact/core.py", 762, 900, ["C13", "C20", "C14", "C04"]),
     ("pyrefact/core.py", 918, 1080, ["C15", "C16", "C04", "C02"]),
-    ("pyrefact/symbolic_math.py", 255, 860, ["C17", "C02", "C15"]),
+    ("pyrefact/symbolic_math.py", 255, 860, ["C17", "C02", "C15", "C04"]),
     ("pyrefact/pattern_matching.py", 22, 160, ["C13", "C14", "C12"]),
     ("pyrefact/main.py", 159, 420, ["C07", "C08", "C03", "C20", "C09", "C06"]),
     ("pyrefact/fixes.py", 1141, 1290, ["C17", "C09", "C16", "C02"]),
